@@ -315,7 +315,7 @@ package gozxing
 //@   property C16
 //@   use mulNonneg((width+31)/32, height)
 //@   ensures (width < 1 || height < 1) ==> r == nil && e != nil
-//@   ensures !(width < 1 || height < 1) ==> e == nil && r != nil && fresh(r) && wfBM(r) && r.width == width && r.height == height
+//@   ensures !(width < 1 || height < 1) ==> e == nil && r != nil && fresh(r) && fresh(r.bits) && wfBM(r) && r.width == width && r.height == height
 //@   ensures !(width < 1 || height < 1) ==> forall x int, y int :: widx(r, x, y) && inBM(r, x, y) ==> !mget(r, x, y)
 //@   modifies nothing
 
